@@ -1,11 +1,13 @@
 (* Re-checked on EVERY run against the definitions REGENERATED from /repo's current source by gen/c08_py2coq.py (Gen_c08_forward.v):
    the index / stacking logic of the tomography forward model, as written in Python today, equals the hand-written model of
-   Model/C08_Forward.v about which the property theorems (Props/C08.v) are stated. Translated (19 definitions):
+   Model/C08_Forward.v about which the property theorems (Props/C08.v) are stated. Translated (28 definitions):
      num_variables formulas of StandardQst / Povmt / Qpt / Qmpt.__init__ ; num_outcomes of the four classes (schedule -> tester lookup) ;
      StandardQst._set_coeffs, StandardPovmt._set_coeffs, calc_c_qpt, StandardQpt._set_coeffs, cqpt_to_cqmpt, StandardQmpt._set_coeffs
      (dictionary keys (schedule_index, x), tester lookup, zero-block offsets, slices) ; calc_matA, calc_vecB (sorted stacking) ;
      the split of calc_prob_dists and the slice of calc_fisher_matrix (callees truncate_and_normalize / matrix_util.calc_fisher_matrix
-     are uninterpreted parameters) ; the loop of Experiment.calc_prob_dists (calc_prob_dist uninterpreted).
+     are uninterpreted parameters) ; the loop of Experiment.calc_prob_dists (calc_prob_dist uninterpreted) ;
+     Experiment.calc_prob_dist (object lookup + reverse-order composition, compose_qoperations uninterpreted) ; _get_target_index of the four
+     classes ; StandardQTomography.calc_prob_dist ; get_coeffs_0th_vec / get_coeffs_1st_mat ; is_fullrank_matA (np.linalg.matrix_rank uninterpreted).
    Schedules are lists of item indices ([enc_qst], [enc_povmt], [enc3] in Proofs/C08_NpSem.v). The last four theorems transport the
    forward-model property to the regenerated code: matA / vecB computed by the regenerated functions predict the Born statistics.
    A behaviour-changing edit of a translated function makes this file fail to compile: the check then reports the tie broken and its
@@ -308,6 +310,44 @@ Theorem gen_experiment_calc_prob_dists_eq : forall (schedules : list (list Z)) (
 Proof. intros schedules cpd. unfold gen_experiment_calc_prob_dists, zlen. rewrite zrange_of_nat.
   cbv zeta. rewrite (fold_left_snoc cpd). cbn [app]. now rewrite map_map. Qed.
 
+(* ---- Experiment.calc_prob_dist: the objects named by the schedule are composed in REVERSE schedule order (appendleft: the last item,
+   the measurement, is the left-most factor); a schedule item is (kind code, index), objects are opaque ids, compose is uninterpreted *)
+Theorem gen_experiment_calc_prob_dist_eq : forall (schedules : list (list (Z * Z))) (compose : list Z -> list F) (lookup : Z -> Z -> Z) j,
+  gen_experiment_calc_prob_dist F schedules compose lookup j
+  = compose (rev (map (fun it => lookup (fst it) (snd it)) (znth [] schedules j))).
+Proof. intros schedules compose lookup j. unfold gen_experiment_calc_prob_dist. cbv zeta.
+  rewrite (fold_left_ext _ (fun acc it => lookup (fst it) (snd it) :: acc)) by (intros acc [k i]; reflexivity).
+  now rewrite fold_left_cons_rev, app_nil_r. Qed.
+(* ---- _get_target_index: the unknown is object 0 of its kind in every schedule of the four classes *)
+Theorem gen_get_target_index_eq :
+  (forall (scheds : list nat) j, (j < length scheds)%nat -> gen_qst_get_target_index F (map enc_qst scheds) (Z.of_nat j) = 0%Z) /\
+  (forall (scheds : list nat) j, (j < length scheds)%nat -> gen_povmt_get_target_index F (map enc_povmt scheds) (Z.of_nat j) = 0%Z) /\
+  (forall (scheds : list (nat * nat)) j, (j < length scheds)%nat -> gen_qpt_get_target_index F (map enc3 scheds) (Z.of_nat j) = 0%Z) /\
+  (forall (scheds : list (nat * nat)) j, (j < length scheds)%nat -> gen_qmpt_get_target_index F (map enc3 scheds) (Z.of_nat j) = 0%Z).
+Proof. repeat split; intros scheds j Hj.
+  - unfold gen_qst_get_target_index. now rewrite znth_of_nat, (nth_map_lt _ _ O []) by exact Hj.
+  - unfold gen_povmt_get_target_index. now rewrite znth_of_nat, (nth_map_lt _ _ O []) by exact Hj.
+  - unfold gen_qpt_get_target_index. now rewrite znth_of_nat, (nth_map_lt _ _ (O, O) []) by exact Hj.
+  - unfold gen_qmpt_get_target_index. now rewrite znth_of_nat, (nth_map_lt _ _ (O, O) []) by exact Hj. Qed.
+(* ---- calc_prob_dist(qope, j) is entry j of calc_prob_dists(qope) *)
+Theorem gen_calc_prob_dist_eq : forall (all : list (list F)) j, gen_calc_prob_dist F all (Z.of_nat j) = nth j all [].
+Proof. intros all j. unfold gen_calc_prob_dist. apply znth_of_nat. Qed.
+(* ---- is_fullrank_matA: rank == number of columns; with the exact rank in place of np.linalg.matrix_rank it is the model's guard,
+   hence (C08_is_fullrank_matA_spec) true <=> the kernel is trivial *)
+Theorem gen_is_fullrank_matA_eq : forall (A : list (lvec F)),
+  gen_is_fullrank_matA F A (fun M => Z.of_nat (rank_elim F (row_width F M) M)) = is_fullrank_matA F (row_width F A) A.
+Proof. intros A. unfold gen_is_fullrank_matA, is_fullrank_matA, fullcolrank_dec. cbv zeta. rewrite shape1_of_nat, of_nat_eqb. apply Nat.eqb_sym. Qed.
+
+(* ---- get_coeffs_0th_vec / get_coeffs_1st_mat: the entries of the keys (j, x) of schedule j, asked for in dictionary INSERTION order
+   (for the dictionaries of gen_*_set_coeffs_eq that is x = 0, 1, ... ; the element getters are uninterpreted) *)
+Definition keys_of_schedule {T} (d : list (zkey * T)) (j : Z) : list Z := map snd (filter (fun k : zkey => (fst k =? j)%Z) (map fst d)).
+Theorem gen_get_coeffs_0th_vec_eq : forall (d : list (zkey * F)) (g : Z -> Z -> F) j,
+  gen_get_coeffs_0th_vec F d g j = map (g j) (keys_of_schedule d j).
+Proof. intros d g j. unfold gen_get_coeffs_0th_vec, keys_of_schedule. cbv zeta. rewrite (fold_left_snoc (g j)). reflexivity. Qed.
+Theorem gen_get_coeffs_1st_mat_eq : forall (d : list (zkey * F)) (g : Z -> Z -> list F) j,
+  gen_get_coeffs_1st_mat F d g j = map (g j) (keys_of_schedule d j).
+Proof. intros d g j. unfold gen_get_coeffs_1st_mat, keys_of_schedule, np_vstack1. cbv zeta. rewrite (fold_left_snoc (g j)). reflexivity. Qed.
+
 (* ---- the property, about the code as regenerated: the stacked coefficients computed by the regenerated _set_coeffs + calc_matA /
    calc_vecB predict, for EVERY variable vector, the Born distribution of every schedule's circuit *)
 Theorem gen_qst_forward : forall d para sd (povms : list (list (lvec F))) (scheds : list nat) (v : rvec F),
@@ -360,6 +400,12 @@ Print Assumptions gen_cqpt_to_cqmpt_eq.
 Print Assumptions gen_qmpt_set_coeffs_eq.
 Print Assumptions gen_qpt_set_coeffs_eq.
 Print Assumptions gen_experiment_calc_prob_dists_eq.
+Print Assumptions gen_experiment_calc_prob_dist_eq.
+Print Assumptions gen_get_target_index_eq.
+Print Assumptions gen_calc_prob_dist_eq.
+Print Assumptions gen_is_fullrank_matA_eq.
+Print Assumptions gen_get_coeffs_0th_vec_eq.
+Print Assumptions gen_get_coeffs_1st_mat_eq.
 Print Assumptions gen_qst_forward.
 Print Assumptions gen_povmt_forward.
 Print Assumptions gen_qpt_forward.
